@@ -8,7 +8,7 @@
 (* (Shutdown!ObligationsHold); the mechanism variables are not used here.  *)
 (*                                                                         *)
 (* Lines: Case{cls,tp,waitMs,conns,hooks,second,...}; Dial{c};             *)
-(* Connected{c}; DialFailed{c}; Accept{c}; OnConnect{c};                   *)
+(* Connected{c}; DialFailed{c}; Accept{c}; OnConnect{c}; OnConnectDone{c};  *)
 (* HandlerEnter{c,r};                                                      *)
 (* HandlerExit{c,r,running}; ResponseComplete{c,r,close,bytesOk};          *)
 (* ResponseNone{c,r}; SendFailed{c,r}; ShutdownCall{k};                    *)
@@ -48,7 +48,7 @@ ObsReset == /\ oBegun' = FALSE /\ oReturned' = FALSE
             /\ oMust' = [c \in TConns |-> FALSE]
             /\ oHS' = {} /\ oHE' = {}
             /\ oCall' = [k \in TCallers |-> "no"] /\ oRet' = [k \in TCallers |-> None]
-            /\ oPre' = {} /\ oEarly' = FALSE
+            /\ oPre' = {} /\ oEarly' = FALSE /\ oPreReq' = {} /\ oGone' = {}
 
 TraceInit == /\ status = "init" /\ listening = FALSE /\ active = 0
              /\ conn = [c \in Conns |-> None] /\ avail = [c \in Conns |-> None] /\ sent = [c \in Conns |-> 0]
@@ -72,7 +72,7 @@ TraceCase == /\ ~InCase /\ HasLine /\ Line.ev = "Case"
 
 \* events that carry no obligation
 TraceInfo == /\ InCase /\ HasLine
-             /\ Line.ev \in {"Connected", "DialFailed", "SendFailed", "ResponseNone", "RunReturn"}
+             /\ Line.ev \in {"Connected", "DialFailed", "SendFailed", "RunReturn"}
              /\ Same /\ Consume
 
 \* the transport ran the OnAccept / OnConnect callback for connection c ("accepted" binds here, not at handler
@@ -82,6 +82,12 @@ TraceAccept == /\ InCase /\ HasLine /\ Line.ev \in {"Accept", "OnConnect"}
                /\ IF Line.c \in TConns /\ (Line.ev = "OnConnect" \/ cur.tp = "standard")
                   THEN ObsAccept(Line.c) ELSE UNCHANGED ovars
                /\ UNCHANGED cur /\ Consume
+\* the OnConnect callback returned: on netpoll the connection is bound only while it is held in the callback
+TraceOnConnectDone == /\ Ev("OnConnectDone")
+                      /\ IF Line.c \in TConns /\ cur.tp = "netpoll" THEN ObsRelease(Line.c) ELSE UNCHANGED ovars
+                      /\ UNCHANGED cur /\ Consume
+
+TraceResponseNone == /\ Ev("ResponseNone") /\ OkResponseNone(Line.c) /\ ObsResponseNone(Line.c) /\ UNCHANGED cur /\ Consume
 
 TraceDial == /\ Ev("Dial") /\ OkDial(Line.c) /\ ObsDial(Line.c) /\ UNCHANGED cur /\ Consume
 
@@ -115,7 +121,7 @@ TraceRaceTrial == /\ Ev("RaceTrial") /\ cur.cls = "raceN"
 TraceEnd == /\ Ev("End") /\ OkEnd(ServerIsRun, AllHooks)
             /\ cur' = Idle /\ ObsReset /\ Consume
 
-Normal == TraceCase \/ TraceInfo \/ TraceAccept \/ TraceDial \/ TraceHandlerEnter \/ TraceHandlerExit \/ TraceResponse \/ TraceCall
+Normal == TraceCase \/ TraceInfo \/ TraceAccept \/ TraceOnConnectDone \/ TraceResponseNone \/ TraceDial \/ TraceHandlerEnter \/ TraceHandlerExit \/ TraceResponse \/ TraceCall
           \/ TraceReturn \/ TraceHookStart \/ TraceHookEnd \/ TraceDialAfter \/ TraceRaceTrial \/ TraceEnd
 
 NextCase(k) == IF \E j \in k + 1 .. Len(Trace) : Trace[j].ev = "Case"
